@@ -58,6 +58,9 @@ func (registry *UtxosRegistry) CalculateFee(transaction *ledger.Transaction, tim
 		inputsValue += value
 	}
 	for _, output := range transaction.Outputs() {
+		if outputsValue+output.InitialValue() < outputsValue {
+			return 0, errors.New("outputs value overflows")
+		}
 		outputsValue += output.InitialValue()
 	}
 	if inputsValue < outputsValue {
